@@ -252,6 +252,10 @@ func init() {
 			}
 			return invDone, nil
 		},
+		"vDepth": func(c *intrCtx) (invResult, Value) {
+			// the number of active calls on the calling goroutine's stack
+			return invDone, c.r.tt.Int(64, int64(len(c.t.frames)))
+		},
 		"vStep": func(c *intrCtx) (invResult, Value) {
 			c.r.clock++
 			return invDone, c.r.tt.Int(64, int64(c.r.clock))
